@@ -215,6 +215,7 @@ _API_CASE = st.fixed_dictionaries(
         "workdir": st.one_of(st.just("."), _path(allow_abs=False)),
         "inp": st.lists(_path(), max_size=2),
         "out": st.lists(_path(), max_size=2),
+        "vol": st.lists(_path(), max_size=2),
     }
 )
 
@@ -231,7 +232,8 @@ def check_api(case, rec, ctx):
     start = os.path.normpath(os.path.join(cwd, wd))
     inp = [_subst(p, base) for p in case["inp"]]
     out = [_subst(p, base) for p in case["out"]]
-    if any(not os.path.isabs(p) and _escapes_fs_root(start, p) for p in inp + out):
+    vol = [_subst(p, base) for p in case.get("vol", []) if p not in case["out"]]
+    if any(not os.path.isabs(p) and _escapes_fs_root(start, p) for p in inp + out + vol):
         return
     recorder = _Recorder()
     saved = (api.get_rpc_client, api.get_job_i)
@@ -242,9 +244,9 @@ def check_api(case, rec, ctx):
     try:
         try:
             if func == "step":
-                api.step("cmd", inp=inp, out=out, workdir=wd)
+                api.step("cmd", inp=inp, out=out, vol=vol, workdir=wd)
             elif func == "amend":
-                api.amend(inp=inp, out=out)
+                api.amend(inp=inp, out=out, vol=vol)
             elif func == "static":
                 api.static(*inp)
             else:
@@ -277,12 +279,20 @@ def check_api(case, rec, ctx):
                 same(sent, given, "inp", wd)
             for given, sent in zip(out, tr_out):
                 same(sent, given, "out", wd)
+            for given, sent in zip(vol, _vol):
+                same(sent, given, "vol", wd)
             if os.path.realpath(os.path.join(root, str(tr_wd))) != _target(cwd, ".", wd):
                 raise Violation("C20/api-step-workdir-designates-other-directory",
                                 f"caller {cwd}: workdir {wd!r} sent as {str(tr_wd)!r}")
             rec.mark_nontrivial(case, sample=case)
         elif name == "amend_step":
             _job, tr_inp, _env, tr_out = args[:4]
+            tr_vol = args[4] if len(args) > 4 else []
+            exp_vol = {_target(cwd, ".", p) for p in vol}
+            got_vol = {os.path.realpath(os.path.join(root, str(s))) for s in tr_vol}
+            if exp_vol != got_vol:
+                raise Violation("C20/api-amend-designates-other-file",
+                                f"caller {cwd}: vol {vol} -> {sorted(map(str, tr_vol))}")
             exp_inp = {_target(cwd, ".", p) for p in inp}
             got_inp = {os.path.realpath(os.path.join(root, str(s))) for s in tr_inp}
             exp_out = {_target(cwd, ".", p) for p in out}
